@@ -1916,12 +1916,13 @@ class Message(ABC):
         :class:`bool`
             `True` if field has been set, otherwise `False`.
         """
-        default = (
-            PLACEHOLDER
-            if not self._betterproto.meta_by_field_name[name].optional
-            else None
+        value = self.__raw_get(name)
+        if value is PLACEHOLDER:
+            # never assigned, or reset because another member of its oneof was set
+            return False
+        return not (
+            self._betterproto.meta_by_field_name[name].optional and value is None
         )
-        return self.__raw_get(name) is not default
 
     @classmethod
     def _validate_field_groups(cls, values):
